@@ -138,6 +138,14 @@ CLAIMED["C18"] = ("DESIGN.md §4 C18",
     "IMF-fixdate template and field order; every Base64 decoder arm shifts by the same expression; percent_decode tests both characters for hex digits; neither decoder can "
     "panic on malformed input. Bit-exactness of the algorithms for every input is a value property and is not decided.")
 
+CLAIMED["C15"] = ("DESIGN.md §4 C15",
+    "R-TABLE (enumerated values, size units, route-kind precedence and types), R-FLOW (error line/file provenance, quoted-value test arguments, defaults), who-may-iterate (no HashMap iteration or non-append mutation feeding host/route lists), R-DOM (node kind by value shape), R-PANIC over the loader (shared engine with C03)",
+    "Decides: blacklist mode, load-balancer mode and log level tables with rejection of other values; K/M/G = 1024^k case-insensitively; route kinds are tested in the order "
+    "file, directory, proxy, redirect, websocket and each builds its own RouteType from its own key; every ConfigError of the tree parser carries the iterator's current line "
+    "(or include's line) and the file, except the documented line 0; hosts and routes are only appended while iterating Vecs in file order, multi-pattern routes expand in "
+    "order, trimmed; quoted values are tested with wildcard_match(\"\\\"*\\\"\", value) and node kinds follow the value shape; each optional key has one constant default; "
+    "the loader cannot panic. Semantic equality of the loaded configuration is not decided.")
+
 NOT_YET = {}
 
 NOT_APPLICABLE = {
